@@ -293,7 +293,7 @@ Proof.
   - apply do_push_inv; auto.
   - apply do_poll_inv; auto.
   - destruct Hc as [Hw Hok]. split; auto. apply winv_do_act; auto. exact I.
-  - destruct Hc as [Hw Hok]. split; auto. destruct (observe k); auto. apply winv_emit; auto.
+  - destruct Hc as [Hw Hok]. split; auto. destruct (observe P k); auto. apply winv_emit; auto.
   - exact Hc.
   - apply do_drop_inv; auto.
   - destruct Hc as [Hw Hok]. split; auto. apply winv_cleanup; auto.
